@@ -700,6 +700,8 @@ STD_CALLS = [
     ("Rename", ["a"], ["a", "c", "a"], "", 0), ("Chmod", ["a", "b"], [], "", 1), ("Chown", ["a"], [], "", 2),
     ("Chtimes", ["c"], [], "", 1), ("Stat", ["a", "b"], [], "", 0), ("List", ["a"], [], "", 0), ("ReadFile", ["a", "c", "b"], [], "", 0),
     ("ReadFile", ["a", "b"], [], "", 0), ("Mkdir", ["nope", "x"], [], "", 0), ("WriteFile", ["a"], [], "c1", 0),
+    # Initialize of a second process over the tape: k=0 without an index (re-index), k=1 with the index left behind
+    ("Initialize", [], [], "", 0), ("Initialize", [], [], "", 1),
 ]
 
 
@@ -719,7 +721,7 @@ def run_c10(tier, seed, t0, replay_item=None):
         calls = list(STD_CALLS)
         if tier == "quick":
             rng.shuffle(calls)
-            calls = calls[:14]
+            calls = calls[:14] + [c for c in calls[14:] if c[0] == "Initialize"]
         for i, (op, p, q, c, k) in enumerate(calls):
             cfg = conc.config(rng, plain_bias=0.7, allow_pgp=False)
             cc = {"names": conc.names(rng, ["a", "b", "c", "nope", "x"], rng.choice(["plain", "like", "spaces"]))[0],
@@ -771,7 +773,7 @@ def run_c10(tier, seed, t0, replay_item=None):
     rep.coverage = {"evaluations": inj, "distinct_nontrivial": len(fired),
                     "impl_traces_validated_by_tlc": lt["traces"], "impl_trace_events": lt["events"], "distinct_seam_traces": lt["distinct"],
                     "seam_traces_unsettled": lt["unsettled"],
-                    "rule": "for each call (26 fixed call kinds over a standard tree incl. rejected calls, plus calls inside TLC-generated histories) a fault-free run counts the points reached per class (open drive for writing/reading - failed both before the drive manager runs and inside it by taking the medium's directory away for exactly that open -, k-th drive write, k-th drive read, k-th index-store call, k-th source read); then every (quick: a spread of) k is failed once on a fresh instance; the call and the following Mkdir/Stat/List/ReadFile probes must return under a watchdog and the process must survive; distinct = (call kind, fault class) pairs whose fault fired",
+                    "rule": "for each call (28 fixed call kinds over a standard tree incl. rejected calls and Initialize of a second process with and without an index, plus calls inside TLC-generated histories) a fault-free run counts the points reached per class (open drive for writing/reading - failed both before the drive manager runs and inside it by taking the medium's directory away for exactly that open -, k-th drive write, k-th drive read, k-th index-store call, k-th source read); then every (quick: a spread of) k is failed once on a fresh instance; the call and the following Mkdir/Stat/List/ReadFile probes must return under a watchdog and the process must survive; distinct = (call kind, fault class) pairs whose fault fired",
                     "samples": samples[:10] or ["none"], "fired": fired, "skipped": len(infra), "tlc_states": mc["distinct"]}
     rep.assumptions = ["faults are injected at the seams the code already has (BackendConfig functions, MetadataPersister interface, write-cache factory); a failing drive write performs a short write first",
                        "a call counts as hung after 40 s, a probe after 25 s"]
